@@ -130,6 +130,10 @@ type run struct {
 	sent         int
 }
 
+// metricFilters: the server also has metric filters configured - one that every metric satisfies and that drops all
+// tags and the host. Filters are about metrics (FILTERING.md); events pass the tag stage with their tags and source.
+var metricFilters = []statsd.Filter{{DropTags: gostatsd.StringMatchList{gostatsd.NewStringMatch("*")}, DropHost: true}}
+
 func eventLine(id int) string {
 	switch id % 3 {
 	case 0:
@@ -153,7 +157,7 @@ func sbody(c scfg, r *run) func(*vsched.Exec) {
 		bh := statsd.NewBackendHandler(backends, c.Concurrent, 1, 1, statsd.AggregatorFactoryFunc(func() statsd.Aggregator {
 			return statsd.NewMetricAggregator(nil, 0, 0, 0, 0, gostatsd.TimerSubtypes{}, 0)
 		}))
-		var head gostatsd.PipelineHandler = statsd.NewTagHandler(bh, append(gostatsd.Tags{}, static...), nil)
+		var head gostatsd.PipelineHandler = statsd.NewTagHandler(bh, append(gostatsd.Tags{}, static...), metricFilters)
 		if c.Cloud {
 			r.outcome = 1 + vsched.Choose(3, "lookup-outcome")
 			if vsched.Choose(2, "initially-cached") == 1 {
@@ -392,7 +396,7 @@ func enumLine(line string) {
 			bh := statsd.NewBackendHandler([]gostatsd.Backend{b}, 1, 1, 1, statsd.AggregatorFactoryFunc(func() statsd.Aggregator {
 				return statsd.NewMetricAggregator(nil, 0, 0, 0, 0, gostatsd.TimerSubtypes{}, 0)
 			}))
-			chain := statsd.NewTagHandler(bh, append(gostatsd.Tags{}, static...), nil)
+			chain := statsd.NewTagHandler(bh, append(gostatsd.Tags{}, static...), metricFilters)
 			var head gostatsd.PipelineHandler = chain
 			var br *bridge
 			if mode == 2 {
